@@ -33,9 +33,11 @@ SecondElse(p) == LET st == RFold(Number(p), 1, St0) IN
                  st.stack # <<>> /\ st.stack[Len(st.stack)].else
 
 \* ---- conditions ----------------------------------------------------------------
+MinInt == -2147483647 - 1
 \* DH is defined with a hexadecimal spelling (.define DH 0x10): a define stands for its number in every documented notation
 Prefix == <<[k |-> "define", n |-> "D1", v |-> 1], [k |-> "define", n |-> "D0", v |-> 0],
             [k |-> "define", n |-> "D2", v |-> 2], [k |-> "define", n |-> "DH", v |-> 16],
+            [k |-> "define", n |-> "DW", v |-> MinInt], [k |-> "define", n |-> "DM", v |-> -1],
             Mark(1), Mark(2), Mark(3), [k |-> "label", n |-> "s1"]>>
 Wrap(c) == Prefix \o <<If(c), Mark(17), [k |-> "else"], Mark(34), [k |-> "endif"], Mark(51)>>
 
@@ -56,9 +58,14 @@ Par3(a, b, c, o1, o2) == {<<LP>> \o a \o <<O(o1)>> \o b \o <<RP, O(o2)>> \o c,
 
 \* a number with all 32 bits set (rendered 4294967295, -1 as a C int) is not zero; hex-spelled defines; only used as a truth
 \* value or with == (its order relative to other numbers depends on the evaluator's width, which the property leaves open)
+\* DW is 0x80000000 and DM 0xffffffff (written in hex; as 32-bit patterns MinInt and -1): a define and a literal that are
+\* the same number are equal whatever the width of the evaluator
 STR == [t |-> "str"]
 WideConds == {<<N(-1)>>, <<NOT, N(-1)>>, <<N(-1), O("&&"), N(1)>>, <<N(0), O("||"), N(-1)>>, <<LP, N(-1), RP>>,
               <<N(-1), O("=="), N(-1)>>, <<N(-1), O("=="), N(1)>>,
+              <<Nm("DW"), O("=="), N(MinInt)>>, <<N(MinInt), O("=="), Nm("DW")>>, <<Nm("DW"), O("=="), Nm("DW")>>, <<Nm("DW")>>,
+              <<Nm("DM"), O("=="), N(-1)>>, <<N(-1), O("=="), Nm("DM")>>, <<Nm("DM"), O("=="), Nm("DW")>>, <<NOT, Nm("DM")>>,
+              <<Nm("DW"), O("=="), N(MinInt), O("&&"), Nm("DM"), O("=="), N(-1)>>,
               <<Nm("DH")>>, <<Nm("DH"), O("=="), N(16)>>, <<Nm("DH"), O(">"), N(15)>>, <<Nm("DH"), O("<"), N(16)>>, <<NOT, Nm("DH")>>}
 BadConds == {<<STR>>, <<N(1), O("=="), STR>>, <<STR, O("=="), N(1)>>, <<N(1), O("&&"), STR>>,
              <<>>, <<Nm("U")>>, <<N(1), O("==")>>, <<O("=="), N(1)>>, <<N(1), N(2)>>, <<LP, N(1)>>,
